@@ -1,7 +1,202 @@
-From OV.C12 Require Import OpDefs Model Spec Table.
-From Coq Require Import List ZArith.
+(* C12 — the tokenizer never crashes and re-reads its own token spellings.
+   Vocabulary: Model.v (tokenizer_t, primitive::load cursor, escape/unescape, printers; `fixed` = the code
+   after fixes/C12-1..5.patch, `pinned` = the code as found), Spec.v (good, guard, spec_print),
+   Table.v (tok_ops = the operators getOperators() stores, regenerated from operator.cpp). *)
+From Coq Require Import List ZArith Bool.
+From OV.C12 Require Import OpDefs Model Spec Table ProofsSafety ProofsSafety2 ProofsRoundtrip ProofsPrim ProofsSeq ProofsTable.
 Import ListNotations.
 Local Open Scope Z_scope.
-Example placeholder : tokenizeT pinned [34; 97; 0] = Oob.
+
+(* ---------------------------------------------------------------- the generated table *)
+Theorem table_ok_generated : rt_table_ok tok_ops = true /\ table_ok tok_ops = true /\
+  Model.ot_lineComment = OV.gen.C12_OpTable.ot_lineComment /\
+  Model.ot_blockCommentStart = OV.gen.C12_OpTable.ot_blockCommentStart /\
+  Model.ot_comment = OV.gen.C12_OpTable.ot_comment /\
+  Model.ot_lessThan = OV.gen.C12_OpTable.ot_lessThan.
+Proof. split; [exact tok_ops_rt_ok|]. split; [exact tok_ops_ok|]. exact consts_ok. Qed.
+Print Assumptions table_ok_generated.
+
+(* ---------------------------------------------------------------- totality *)
+(* Tokenizing any C string (non-zero bytes, then the NUL) neither reads past the NUL nor runs out of the
+   |bytes|+2 iterations that `tokenize` gives the token loop: it returns a token list. *)
+Theorem no_oob : forall bytes, Forall (fun c => c <> 0) bytes ->
+  tokenize fixed tok_ops (bytes ++ [0]) <> Oob.
+Proof.
+  intros bytes F. destruct (tokenize_ok fixed tok_ops eq_refl tok_ops_ok bytes F) as (ts & E). rewrite E. discriminate.
+Qed.
+Print Assumptions no_oob.
+
+Theorem terminates : forall bytes, Forall (fun c => c <> 0) bytes ->
+  exists toks, tokenizeLoop fixed tok_ops (length bytes + 2) (bytes ++ [0]) [] = Ok toks.
+Proof.
+  intros bytes F. destruct (tokenize_ok fixed tok_ops eq_refl tok_ops_ok bytes F) as (ts & E).
+  exists ts. unfold tokenize in E. rewrite app_length in E. simpl in E.
+  replace (length bytes + 2)%nat with (length bytes + 1 + 1)%nat by (rewrite <- Nat.add_assoc; reflexivity). exact E.
+Qed.
+Print Assumptions terminates.
+
+(* every getToken call that starts before the NUL consumes at least one byte and stays inside the buffer *)
+Theorem getToken_advances : forall s, wf s -> hd 0 s <> 0 ->
+  exists t s', getToken fixed tok_ops s = Ok (t, s') /\ wf s' /\ sfx s' s /\ (length s' < length s)%nat.
+Proof. intros s W H. exact (getToken_progress fixed tok_ops eq_refl tok_ops_ok s W H). Qed.
+Print Assumptions getToken_advances.
+
+(* the same holds for every table of non-empty C-string symbols, and with only the NUL repair applied *)
+Theorem no_oob_any_table : forall fx ops bytes, fx_nul fx = true -> table_ok ops = true ->
+  Forall (fun c => c <> 0) bytes -> exists toks, tokenize fx ops (bytes ++ [0]) = Ok toks.
+Proof. intros. apply tokenize_ok; auto. Qed.
+Print Assumptions no_oob_any_table.
+
+Theorem header_no_oob : forall bytes, Forall (fun c => c <> 0) bytes ->
+  exists r s', getHeader fixed tok_ops (bytes ++ [0]) = Ok (r, s') /\ wf s'.
+Proof. intros bytes F. apply (getHeader_ok fixed tok_ops eq_refl). apply wf_app; auto. Qed.
+Print Assumptions header_no_oob.
+
+(* the code as found: an unterminated literal at the end of the input steps over the NUL *)
+Theorem unterminated_literal_oob_refuted :
+  tokenize pinned tok_ops ([34; 97; 98; 99] ++ [0]) = Oob /\        (* quote a b c *)
+  tokenize pinned tok_ops ([39; 97] ++ [0]) = Oob /\                (* apostrophe a *)
+  tokenize pinned tok_ops ([82; 34; 97] ++ [0]) = Oob /\            (* R quote a *)
+  (exists r, getHeader pinned tok_ops ([60; 97] ++ [0]) = Ok (r, [])) /\   (* <a : cursor past the NUL *)
+  (exists s, getHeader pinned tok_ops ([60; 97; 10] ++ [0]) = Ok (None, s)). (* <a\n : std::string(NULL) *)
+Proof. repeat split; try (vm_compute; reflexivity); eexists; vm_compute; reflexivity. Qed.
+Print Assumptions unterminated_literal_oob_refuted.
+
+(* ---------------------------------------------------------------- round trips, token by token
+   `rest` is what follows the printed token: the end of the input or a blank. *)
+Theorem roundtrip_ident : forall v rest, spec_ident tok_ops v = true -> blank_or_end rest ->
+  getToken fixed tok_ops (printToken fixed (TIdent v) ++ rest) = Ok (Some (TIdent v), rest).
+Proof. intros. apply lex_ident; auto using tok_ops_rt_ok. Qed.
+Print Assumptions roundtrip_ident.
+
+Theorem roundtrip_prim : forall v rest, spec_prim v = true -> blank_or_end rest ->
+  getToken fixed tok_ops (printToken fixed (TPrim v) ++ rest) = Ok (Some (TPrim v), rest).
+Proof. intros. apply lex_prim; auto using tok_ops_rt_ok. Qed.
+Print Assumptions roundtrip_prim.
+
+(* every operator of the table that is not a comment opener, by longest match *)
+Theorem roundtrip_ops : forall o rest, In o tok_ops -> ot_has (op_type o) ot_comment = false -> blank_or_end rest ->
+  getToken fixed tok_ops (printToken fixed (TOp o) ++ rest) = Ok (Some (TOp o), rest).
+Proof.
+  intros o rest I NC B. apply lex_op; auto using tok_ops_rt_ok. unfold spec_op. rewrite NC.
+  rewrite andb_true_r. apply existsb_exists. exists o. split; auto.
+  unfold oper_eqb, ot_eqb. rewrite !list_eqb_refl, !Z.eqb_refl. reflexivity.
+Qed.
+Print Assumptions roundtrip_ops.
+
+Theorem roundtrip_string : forall e v u rest,
+  In e [0; 2; 4; 8; 16] -> spec_litvalue 34 v = true -> spec_udf u = true -> blank_or_end rest ->
+  getToken fixed tok_ops (printToken fixed (TString e v u) ++ rest) = Ok (Some (TString e v u), rest).
+Proof.
+  intros e v u rest I LV SU B. apply lex_string; auto using tok_ops_rt_ok.
+  apply existsb_exists. exists e. split; auto. apply Z.eqb_refl.
+Qed.
+Print Assumptions roundtrip_string.
+
+Theorem roundtrip_char : forall e v u rest,
+  In e [0; 4; 8; 16] -> spec_litvalue 39 v = true -> spec_udf u = true -> blank_or_end rest ->
+  getToken fixed tok_ops (printToken fixed (TChar e v u) ++ rest) = Ok (Some (TChar e v u), rest).
+Proof.
+  intros e v u rest I LV SU B. apply lex_char; auto using tok_ops_rt_ok.
+  apply existsb_exists. exists e. split; auto. apply Z.eqb_refl.
+Qed.
+Print Assumptions roundtrip_char.
+
+Theorem roundtrip_comment_partial : forall v rest,
+  spec_block_comment v = true -> guard (TComment v) = true -> blank_or_end rest ->
+  getToken fixed tok_ops (printToken fixed (TComment v) ++ rest) = Ok (Some (TComment v), rest).
+Proof. intros. apply lex_comment; auto using tok_ops_rt_ok. Qed.
+Print Assumptions roundtrip_comment_partial.
+
+Theorem roundtrip_line_comment : forall body rest,
+  Forall (fun x => x <> 0 /\ x <> 92 /\ x <> 10) body ->
+  getToken fixed tok_ops (47 :: 47 :: body ++ 10 :: rest) = Ok (Some (TComment (47 :: 47 :: body)), 10 :: rest).
+Proof. intros. apply lex_line_comment; auto using tok_ops_rt_ok. Qed.
+Print Assumptions roundtrip_line_comment.
+
+(* ---------------------------------------------------------------- round trip of token sequences
+   Full statement (the property):
+     forall ts, Forall (fun t => good tok_ops t = true) ts ->
+       tokenize fixed tok_ops (printSeq fixed ts ++ [0]) = Ok ts.
+   Proved with the guard that excludes raw strings and two comment shapes (known findings; witnesses
+   below).  printSeq puts one blank between consecutive tokens. *)
+Theorem roundtrip_seq_partial : forall ts,
+  Forall (fun t => good tok_ops t = true /\ guard t = true) ts ->
+  tokenize fixed tok_ops (printSeq fixed ts ++ [0]) = Ok ts.
+Proof. intros ts F. apply tokenize_seq; auto using tok_ops_rt_ok. Qed.
+Print Assumptions roundtrip_seq_partial.
+
+(* the modelled printer is the reference printer on good tokens inside the guard *)
+Theorem print_is_reference : forall e v u,
+  In e [0; 2; 4; 8; 16] ->
+  printToken fixed (TString e v u) = spec_print (TString e v u).
+Proof.
+  intros e v u I. cbn [printToken spec_print]. unfold escape. rewrite escape_fixed_spec.
+  cbn [In] in I. repeat (destruct I as [I|I]; [subst e; reflexivity|]). destruct I.
+Qed.
+Print Assumptions print_is_reference.
+
+(* what is outside the guard really fails (also after the repairs) *)
+Theorem raw_string_refuted :
+  good tok_ops (TString 1 [97; 98] []) = true /\
+  tokenize fixed tok_ops (printSeq fixed [TString 1 [97; 98] []] ++ [0]) <> Ok [TString 1 [97; 98] []].
+Proof. split; [vm_compute; reflexivity|]. vm_compute. discriminate. Qed.
+Print Assumptions raw_string_refuted.
+
+Theorem comment_shapes_refuted :
+  (* /*/ x*/ *)
+  (good tok_ops (TComment [47; 42; 47; 32; 120; 42; 47]) = true /\
+   tokenize fixed tok_ops (printSeq fixed [TComment [47; 42; 47; 32; 120; 42; 47]] ++ [0])
+     <> Ok [TComment [47; 42; 47; 32; 120; 42; 47]]) /\
+  (* /* \*/ then x *)
+  (good tok_ops (TComment [47; 42; 32; 92; 42; 47]) = true /\
+   tokenize fixed tok_ops (printSeq fixed [TComment [47; 42; 32; 92; 42; 47]; TIdent [120]] ++ [0])
+     <> Ok [TComment [47; 42; 32; 92; 42; 47]; TIdent [120]]).
+Proof. repeat split; try (vm_compute; reflexivity); vm_compute; discriminate. Qed.
+Print Assumptions comment_shapes_refuted.
+
+(* the code as found fails inside the guard: these are the defects that fixes/C12-2..4 repair *)
+Theorem leading_quote_refuted :           (* a string value that starts with a quote loses the backslash of that quote *)
+  good tok_ops (TString 0 [34; 97] []) = true /\ guard (TString 0 [34; 97] []) = true /\
+  tokenize pinned tok_ops (printSeq pinned [TString 0 [34; 97] []] ++ [0]) <> Ok [TString 0 [34; 97] []].
+Proof. repeat split; try (vm_compute; reflexivity). vm_compute. discriminate. Qed.
+Print Assumptions leading_quote_refuted.
+
+Theorem prefix_blank_refuted :            (* identifier L, blank, string abc: the identifier is lost *)
+  tokenize pinned tok_ops (printSeq pinned [TIdent [76]; TString 0 [97; 98; 99] []] ++ [0])
+    = Ok [TString 0 [97; 98; 99] []].
 Proof. vm_compute. reflexivity. Qed.
-Print Assumptions placeholder.
+Print Assumptions prefix_blank_refuted.
+
+Theorem true_ident_refuted :              (* true1 is read as true 1 *)
+  good tok_ops (TIdent [116; 114; 117; 101; 49]) = true /\
+  tokenize pinned tok_ops (printSeq pinned [TIdent [116; 114; 117; 101; 49]] ++ [0])
+    = Ok [TPrim [116; 114; 117; 101]; TPrim [49]].
+Proof. split; vm_compute; reflexivity. Qed.
+Print Assumptions true_ident_refuted.
+
+(* ---------------------------------------------------------------- non-vacuity *)
+Example good_examples :
+  forallb (good tok_ops)
+    [TIdent [120; 95; 49]; TIdent [116; 114; 117; 101; 49]; TIdent [76];
+     TPrim [49; 46; 53; 101; 45; 51; 102]; TPrim [48; 120; 49; 70; 117; 76]; TPrim [116; 114; 117; 101];
+     TString 2 [34; 97; 92; 110] [95; 107]; TChar 16 [39] []; TComment [47; 42; 32; 42; 42; 47]; TNewline;
+     TUnknown 36] = true
+  /\ forallb guard
+    [TString 2 [34; 97; 92; 110] [95; 107]; TComment [47; 42; 32; 42; 42; 47]] = true
+  /\ forallb (fun o => spec_op tok_ops o || ot_has (op_type o) ot_comment) tok_ops = true
+  /\ length tok_ops = 64%nat.
+Proof. repeat split; vm_compute; reflexivity. Qed.
+
+Example seq_example :
+  tokenize fixed tok_ops (printSeq fixed
+    [TIdent [76]; TString 0 [34; 97] []; TPrim [49; 101; 53]; TChar 4 [39] [95; 99]] ++ [0])
+  = Ok [TIdent [76]; TString 0 [34; 97] []; TPrim [49; 101; 53]; TChar 4 [39] [95; 99]].
+Proof. vm_compute. reflexivity. Qed.
+
+Example longest_match_example :   (* a<<=b>>>c : <<= and >>> are single operators *)
+  match tokenize fixed tok_ops ([97; 60; 60; 61; 98; 62; 62; 62; 99] ++ [0]) with
+  | Ok [TIdent _; TOp o1; TIdent _; TOp o2; TIdent _] => op_sym o1 = [60; 60; 61] /\ op_sym o2 = [62; 62; 62]
+  | _ => False
+  end.
+Proof. vm_compute. split; reflexivity. Qed.
